@@ -209,10 +209,6 @@ def build_group(task):
     for st in task['targets']:
         r0, c0 = target_origin(st)
         arrays[ref(r0, c0, *st)] = formula
-        # a column of plain numbers right of the target, for ranges that
-        # reach beyond the array formula
-        for i in range(st[0]):
-            cells[f'{xl_col(c0 + st[1])}{r0 + i}'] = 9000 + 10 * st[1] + i
     return cells, arrays, formula, scalar_at, values
 
 
@@ -263,7 +259,7 @@ def run_group(task):
     label = dict(cfg=task['cfg'], form=task['form'], kinds=task['kinds'],
                  shapes=task['shapes'], formula=formula)
 
-    def compile_model():
+    def compile_model(cells, arrays):
         out['workbooks'] += 1
         if task['file']:
             path = os.path.join(task['file'], 'g%08x_%d.xlsx' % (task['seed'], os.getpid()))
@@ -275,11 +271,13 @@ def run_group(task):
                 os.unlink(path)
         return xl.compile_wb(cells, arrays=arrays)
 
+    book = [cells, arrays]
+
     def bad(desc, st, **more):
-        case = dict(label, target=list(st), cells=cells, arrays=arrays, **more)
+        case = dict(label, target=list(st), cells=book[0], arrays=book[1], **more)
         out['violations'].append((desc, case))
 
-    m = call(compile_model)
+    m = call(compile_model, cells, arrays)
     if isinstance(m, Exception):
         bad(f'{formula}: workbook does not compile: {short(m)}', (0, 0))
         return out
@@ -318,8 +316,9 @@ def run_group(task):
     def same(got, want):
         return not isinstance(got, Exception) and xl.same_value(got, want, tol=1e-12)
 
-    def check_members(model, st, want, how, order=None):
+    def check_members(model, st, want, how, order=None, dc=0):
         r0, c0 = target_origin(st)
+        c0 += dc
         pos = [(i, j) for i in range(st[0]) for j in range(st[1])]
         if order:
             order.shuffle(pos)
@@ -379,13 +378,29 @@ def run_group(task):
         if out['sample'] is None and st == (3, 3):
             out['sample'] = dict(label, target=[3, 3], expected=want)
     out['informative'] = len(distinct_vals)
-    # ranges made of member cells, read through a fresh model
+    # ranges made of member cells, read through a fresh model in which the
+    # sampled targets have a twin (same array formula, entered again right of
+    # the target) and a column of plain numbers next to them
     if task['overlap'] and done:
-        m2 = call(compile_model)
+        picked = rnd.sample(done, min(3, len(done)))
+        cells2 = {a: x for a, x in cells.items()}
+        arrays2 = {}
+        twin = {}
+        for st, want in picked:
+            r0, c0 = target_origin(st)
+            th, tw = st
+            arrays2[ref(r0, c0, th, tw)] = formula
+            twin[st] = 2 * tw + 1 <= T_STEP
+            if twin[st]:
+                arrays2[ref(r0, c0 + tw, th, tw)] = formula
+            for i in range(th):
+                cells2[f'{xl_col(c0 + (2 if twin[st] else 1) * tw)}{r0 + i}'] = 9000 + i
+        book[:] = [cells2, arrays2]
+        m2 = call(compile_model, cells2, arrays2)
         if isinstance(m2, Exception):
             bad(f'{formula}: workbook does not compile: {short(m2)}', (0, 0))
             return out
-        for st, want in rnd.sample(done, min(3, len(done))):
+        for st, want in picked:
             r0, c0 = target_origin(st)
             th, tw = st
             out['cases'].append((task['cfg'], task['template'], task['form'],
@@ -401,11 +416,20 @@ def run_group(task):
                 sub = tuple(tuple(want[i][j0:j1 + 1]) for i in range(i0, i1 + 1))
                 check_range(m2, st, r0 + i0, c0 + j0, (i1 - i0 + 1, j1 - j0 + 1), sub,
                             'range of member cells')
-            # the target and the column of plain numbers right of it
-            wide = tuple(tuple(want[i]) + (9000 + 10 * tw + i,) for i in range(th))
-            check_range(m2, st, r0, c0, (th, tw + 1), wide,
-                        'range reaching beyond the array formula')
+            if twin[st]:
+                # two array formulas with the same text side by side
+                both = tuple(tuple(want[i]) * 2 for i in range(th))
+                check_range(m2, st, r0, c0, (th, 2 * tw), both,
+                            'range over the target and its twin')
+            # the target, its twin and the column of plain numbers
+            reps = 2 if twin[st] else 1
+            wide = tuple(tuple(want[i]) * reps + (9000 + i,) for i in range(th))
+            check_range(m2, st, r0, c0, (th, reps * tw + 1), wide,
+                        'range over the target%s and the plain cells next to it'
+                        % (', its twin' if twin[st] else ''))
             check_members(m2, st, want, 'after the overlapping ranges')
+            if twin[st]:
+                check_members(m2, st, want, 'twin, after the overlapping ranges', dc=tw)
     return out
 
 
